@@ -1043,7 +1043,7 @@ main(int argc, char **argv) {
     if (T) /* the larger alphabet under the sanitizers too, with the four token-length forms */
       mk_opts_space(&spaces[ns++], "opts<=3of26/asan", ALPHA_T, NT, 3, np, TOK_S, 4, PAY_Q, 5);
   } else {
-    if (!T) {
+    if (!T && !vx_replay_path()) {
       vx_ev_rule("fast stage runs in the thorough tier only");
       return vx_finish();
     }
